@@ -75,8 +75,14 @@ where
     let bpp = C::Raw::BITS_PER_PIXEL as u32;
     // mostly small images (all residues of the width modulo the pixels per byte); one case in eight
     // is a long strip (a side up to 600 px: truncating casts, byte offsets beyond 255 / 65535)
-    let (w, h) = match d.u(0, 7) {
-        0 => {
+    // auxiliary word 5: one case in 400 is a strip whose long side is 65530..=65600 px (u16 limits)
+    let huge = d.aux_u(5, 0, 399) == 399;
+    let (w, h) = match (huge, d.u(0, 7)) {
+        (true, k) => {
+            let long = 65_530 + d.aux_u(6, 0, 70);
+            if k % 2 == 0 { (long, 2 + d.aux_u(7, 0, 1)) } else { (1 + d.aux_u(7, 0, 1), long) }
+        }
+        (_, 0) => {
             let long = d.pick(&[255u32, 256, 257, 300, 511, 513, 600]) - d.u(0, 9);
             let short = d.u(1, 5);
             if d.bool() { (long, short) } else { (short, long) }
@@ -113,6 +119,8 @@ where
             0 | 1 => {
                 let sw = d.u(0, cur.width);
                 let sh = d.u(0, cur.height);
+                // sub-images of the 65536-px strips are narrow, so that more than 65535 pixels are skipped per row
+                let (sw, sh) = if huge { (if cur.width > 1000 { sw % 41 } else { sw }, if cur.height > 1000 { sh % 41 } else { sh }) } else { (sw, sh) };
                 Rectangle::new(Point::new(d.u(0, cur.width - sw) as i32, d.u(0, cur.height - sh) as i32), Size::new(sw, sh))
             }
             _ => Rectangle::new(Point::new(d.i(-3, cur.width as i32 + 2), d.i(-3, cur.height as i32 + 2)), Size::new(d.u(0, cur.width + 3), d.u(0, cur.height + 3))),
@@ -153,6 +161,10 @@ where
         ensure!(r.is_ok() == (len == n), "new:length", "ImageRaw::new with {} bytes for {}x{} at {} bpp returned {:?}, required length is {}", len, w, h, bpp, r.map(|_| ()), n);
     }
     let raw = ImageRaw::<C, O>::new(&data, Size::new(w, h)).map_err(|e| Fail { sig: "new:rejects_exact_length".into(), detail: format!("{:?}", e) })?;
+    // `new_const` is the same constructor for data of the right length
+    let raw_const = ImageRaw::<C, O>::new_const(&data, Size::new(w, h));
+    ensure!(raw_const.size() == raw.size(), "new_const", "new_const(..) has size {:?}, new(..) {:?}", raw_const.size(), raw.size());
+    let raw = if d.aux_u(4, 0, 3) == 3 { raw_const } else { raw };
     ensure!(raw.size() == Size::new(w, h), "size", "size() = {:?}", raw.size());
 
     // 2. pixel()
